@@ -6,6 +6,7 @@ package main
 import (
 	"fmt"
 	"go/types"
+	"sort"
 	"strings"
 
 	"golang.org/x/tools/go/ssa"
@@ -311,6 +312,106 @@ func (x *Exec) applyContract(p *Path, ct *Contract, vars map[string]SV, results 
 		env = env.with(lt.Name, sv)
 	}
 	tag := "call " + site
+	// known closures passed to a callee that calls back: functional summary of the closure for cbret
+	type cloInfo struct {
+		cc   *Contract
+		fv   SV
+		cenv *SpecEnv
+		cfs  frameSet
+	}
+	var clos []cloInfo
+	if ct.Flags["callbacks"] {
+		var names []string
+		for n := range vars {
+			names = append(names, n)
+		}
+		sort.Strings(names)
+		for _, n := range names {
+			v := vars[n]
+			if v.K != KFunc || v.Fn.Fn == nil {
+				continue
+			}
+			cc := x.cf.ByFunc[fnKey(v.Fn.Fn)]
+			if cc == nil {
+				x.errorf("%s: %s: closure %s passed as callback has no contract", x.cur.ct.Func, site, fnKey(v.Fn.Fn))
+				return SV{}, false
+			}
+			x.usedCt[cc.Func] = true
+			cvars := map[string]SV{}
+			for i, fvv := range v.Fn.Fn.FreeVars {
+				if i < len(v.Fn.Binds) {
+					cvars[fvv.Name()] = v.Fn.Binds[i]
+				}
+			}
+			for k, vv := range x.cur.params {
+				if _, ok := cvars[k]; !ok {
+					cvars[k] = vv
+				}
+			}
+			for k, vv := range p.lets {
+				if _, ok := cvars[k]; !ok {
+					cvars[k] = vv
+				}
+			}
+			cenv := &SpecEnv{x: x, vars: cvars, H: pre, H0: p.H0, HN: pre}
+			// (a) for all arguments: requires ==> returns, with result := cbret(args)
+			qenv := cenv
+			var decl, wrapped []string
+			prms := v.Fn.Fn.Params
+			for _, prm := range prms {
+				so := sortOf(prm.Type())
+				nm := "c_" + sanitize(prm.Name())
+				decl = append(decl, fmt.Sprintf("(%s %s)", nm, so.smt()))
+				qenv = qenv.with(prm.Name(), SV{K: KTerm, T: nm, S: so, Go: prm.Type()})
+				wrapped = append(wrapped, wrapElem(prm.Type(), nm))
+			}
+			for len(wrapped) < 2 {
+				wrapped = append(wrapped, "VNil")
+			}
+			raw := fmt.Sprintf("(cbret %s %s)", wrapped[0], wrapped[1])
+			if rs := v.Fn.Fn.Signature.Results(); rs.Len() == 1 {
+				r := unwrapElem(rs.At(0).Type(), raw)
+				qenv = qenv.with("result", r)
+				if r.S != SVal {
+					// typed result: cbret carries a value of that type
+					ctor := map[Sort]string{SInt: "VInt", SBool: "VBool", SStr: "VStr", SF64: "VFloat"}[r.S]
+					if ctor != "" {
+						qenv = qenv.with("result_is_typed", term(fmt.Sprintf("((_ is %s) %s)", ctor, raw), SBool))
+					}
+				}
+			}
+			var pre_, post_ []string
+			for _, rq := range cc.Requires {
+				if t, err := qenv.evalBool(rq.E); err == nil {
+					pre_ = append(pre_, t)
+				} else {
+					x.errorf("%s: closure requires: %v", cc.Func, err)
+				}
+			}
+			for _, rt := range cc.Returns {
+				if t, err := qenv.evalBool(rt.E); err == nil {
+					post_ = append(post_, t)
+				} else {
+					x.errorf("%s: closure returns: %v", cc.Func, err)
+				}
+			}
+			if tt, ok := qenv.vars["result_is_typed"]; ok {
+				post_ = append(post_, tt.T)
+			}
+			if len(post_) > 0 {
+				pr := "true"
+				if len(pre_) > 0 {
+					pr = "(and " + strings.Join(pre_, " ") + ")"
+				}
+				p.assume(fmt.Sprintf("(forall (%s) (! (=> %s (and %s)) :pattern (%s)))", strings.Join(decl, " "), pr, strings.Join(post_, " "), raw))
+			}
+			ci := cloInfo{cc: cc, fv: v, cenv: cenv}
+			for _, as := range cc.Assigns {
+				x.addFrame(&ci.cfs, cenv, as.E)
+			}
+			clos = append(clos, ci)
+		}
+	}
 	if !ct.Flags["nowf"] && ct.Kind != "extern" && p.H != p.wfKnown {
 		x.wfOblig(p, tag)
 	}
@@ -325,11 +426,14 @@ func (x *Exec) applyContract(p *Path, ct *Contract, vars map[string]SV, results 
 	}
 	// callee frame within caller frame
 	var cfs frameSet
-	saveCur := x.cur.ct
 	for _, as := range ct.Assigns {
 		x.addFrame(&cfs, env, as.E)
 	}
-	_ = saveCur
+	for _, ci := range clos {
+		cfs.cells = append(cfs.cells, ci.cfs.cells...)
+		cfs.lists = append(cfs.lists, ci.cfs.lists...)
+		cfs.objs = append(cfs.objs, ci.cfs.objs...)
+	}
 	if !x.cur.frame.all {
 		chk := func(kind string, ids []string) {
 			for _, id := range ids {
@@ -401,11 +505,38 @@ func (x *Exec) applyContract(p *Path, ct *Contract, vars map[string]SV, results 
 			p.wfKnown = post
 		}
 	}
+	// (c) effect of the known closures: established by the last invocation, untouched when never invoked
+	for _, ci := range clos {
+		calls := fmt.Sprintf("(- (TrLen %s) (TrLen %s))", post, pre)
+		penv := *ci.cenv
+		penv.H = post
+		var es []string
+		for _, en := range ci.cc.Ensures {
+			if t, err := penv.evalBool(en.E); err == nil {
+				es = append(es, t)
+			} else {
+				x.errorf("%s: closure ensures: %v", ci.cc.Func, err)
+			}
+		}
+		if len(es) > 0 {
+			p.assume(fmt.Sprintf("(=> (> %s 0) (and %s))", calls, strings.Join(es, " ")))
+		}
+		for _, c := range ci.cfs.cells {
+			for _, comp := range []string{"CInt", "CBool", "CVal", "CStr", "CF64"} {
+				p.assume(fmt.Sprintf("(=> (= %s 0) (= (select (%s %s) %s) (select (%s %s) %s)))", calls, comp, post, c, comp, pre, c))
+			}
+		}
+	}
 	eenv := &SpecEnv{x: x, vars: env.vars, H: post, H0: pre, HN: pre}
 	if results != nil && results.Len() > 0 {
 		var rs []SV
 		for i := 0; i < results.Len(); i++ {
 			r := x.freshOf(p, results.At(i).Type(), "r")
+			if ct.Flags["result-off0"] && r.K == KSlice {
+				// the contract ensures off(result) == 0 (proved for the callee): index it directly
+				p.assume(fmt.Sprintf("(= %s 0)", r.Off))
+				r.Off = "0"
+			}
 			rs = append(rs, r)
 			eenv = eenv.with(fmt.Sprintf("result%d", i), r)
 			if results.At(i).Name() != "" {
